@@ -13,7 +13,7 @@
      exported_vars.discard / difference_update at the top level; visit_Assign / visit_Macro with
      exported_vars.add for names not starting with "_";
    * environment.Template.make_module, _get_default_module(ctx) (globals_keys difference,
-     {k: ctx.parent[k] for k in keys}), TemplateModule.__init__ (get_exported);
+     {k: ctx._globals[k] for k in keys}), TemplateModule.__init__ (get_exported);
    * environment.select_template (first name for which get_template does not raise
      TemplateNotFound, Template objects returned as they are, TemplatesNotFound otherwise).
    Python dicts are association lists with unique keys and dict update semantics; sets are lists
@@ -50,8 +50,8 @@ Definition sadd (k : name) (l : list name) : list name := if mem k l then l else
 Definition sdiscard (k : name) (l : list name) : list name := filter (fun x => negb (N.eqb x k)) l.
 Definition public (n : name) : bool := N.ltb n 100.
 
-(* runtime.Context; c_globals is a ghost field (the globals mapping handed to new_context; the
-   real class keeps only its keys) used to state the import theorem *)
+(* runtime.Context; c_globals is Context._globals, the globals mapping handed to new_context (kept
+   since the repair recorded in known_findings.d/C05.json; globals_keys are its keys) *)
 Record ctx := { c_parent : env; c_vars : env; c_exported : list name; c_gkeys : list name; c_globals : env }.
 
 (* frame locals as dump_local_context passes them: innermost first in the model's list *)
@@ -92,7 +92,7 @@ Fixpoint pick_parent (keys : list name) (parent : env) : res env :=
   match keys with
   | [] => Ok []
   | k :: r => match dget k parent with
-              | None => Err EKey                                  (* ctx.parent[k] *)
+              | None => Err EKey                                  (* ctx._globals[k] *)
               | Some v => match pick_parent r parent with Ok d => Ok (dset k v d) | Err e => Err e end
               end
   end.
@@ -100,7 +100,7 @@ Definition import_ctx (c : ctx) (g : env) : res ctx :=
   let keys := filter (fun k => negb (mem k (dkeys g))) (c_gkeys c) in
   match keys with
   | [] => Ok (default_ctx g)
-  | _ => match pick_parent keys (c_parent c) with
+  | _ => match pick_parent keys (c_globals c) with
          | Ok d => Ok (new_context (Some d) false g [])
          | Err e => Err e
          end
